@@ -430,9 +430,10 @@ func (m Mesh) scanTrisPrimitives(start, end int, f func(i int, p Primitive)) {
 
 func (m Mesh) scanPointPrimitives(start, end int, f func(i int, p Primitive)) {
 	for i := start; i < end; i++ {
+		// primitive i of a point mesh is the vertex its index buffer names
 		f(i, &Point{
 			mesh:  &m,
-			index: i,
+			index: m.indices[i],
 		})
 	}
 }
